@@ -71,7 +71,7 @@ CHECKS = {
              "ancestor indices valid, copies sum to N, floor/ceil bound, closed-form copy count, estimate invariance of resample, faithful copy, "
              "diagnostic weights; over the reals: the copy count is integrable in the offset and its integral over u in [0,1] is N*w_i (systematic "
              "resampling unbiased); categorical/multinomial resampling: normalised law over ancestor vectors and E[copies_i] = N*w_i (any field); the resampled particle collection is a coherent TRACE for the gathered arguments (each particle = its ancestor with the ancestor's arguments), counterexample when the arguments are not gathered. Tie: seed(resample) on rational weight vectors, offset recovered from the key, indices vs the Lean model; "
-             "copy-consistency of every trace leaf; calibrated expectation test for both methods.",
+             "copy-consistency of every trace leaf; calibrated expectation test for both methods. Also every particle count in 10..130 (260 thorough) plus round numbers up to 1024: exactly N ancestors, floor/ceil bound, ordered.",
         note=TB + "C12: the categorical theorem is about the finite-distribution model of categorical.sample; the draws themselves are TFP's (trusted), checked statistically at z=5.5.",
         technique="Lean 4 + Mathlib proof + differential correspondence with recovered randomness",
         design="§3 C12"),
@@ -119,7 +119,7 @@ CHECKS = {
         text="Partial. Lean theorem for every program shape (sequences, nested scans, cond in scan, scan in cond, any lengths): the keys handed "
              "to the sample sites of one seeded run are pairwise distinct and none is derived from another; a vectorised site (any nest of modular_vmaps, batched or not) makes ONE sampler call with one key and sample_shape = unbatched lanes ++ own shape, every lane reads its own distinct entries of that one joint draw, and all scalar draws of a run have distinct (key, position) coordinates. Tie: keys observed through a "
              "key-revealing probe sampler = the model's key paths; real-distribution programs with equal parameters never return equal "
-             "values; correlation/marginal tests over key batches.",
+             "values; correlation/marginal tests over key batches. Also distinctness at LARGE counts (scans, loops and maps of 300 and 70000 occurrences of one site): the model's key derivation is over unbounded indices, a narrow counter in the code repeats keys only there.",
         note=TB + "C07 (partial): statistical independence of distinct threefry keys and per-site distributional correctness are the PRNG/TFP contract (trusted, calibrated tests only).",
         technique="Lean 4 proof (prefix-freeness invariant of the threaded key) + differential correspondence",
         design="§3 C07"),
@@ -139,7 +139,7 @@ CHECKS = {
              "flip is an involution; rejection returns the input; the log acceptance ratios AS THE CODE COMPUTES THEM are in the model (malaLogAlpha, hmcLogAlpha): mala's is the log MH ratio of the Langevin kernel (normalisers cancel in every dimension), antisymmetric, hence pi*q*min(1,e^alpha) satisfies detailed balance; hmc's is the energy difference, negated on the reversed trajectory, zero for an energy-conserving run, hence detailed balance for exp(-H). MH ON GENERATIVE-FUNCTION PROGRAMS (finite-distribution semantics, Cond-free programs): the regenerate proposal has probability = product of the selected sites' masses under the new values (0 if an unselected address differs), its weight is the MH ratio in cross-multiplied form w * pi(x) * q(x->x') = pi(x') * q(x'->x), and pi(x) q(x->x') min(1,w) = pi(x') q(x'->x) min(1,w') - detailed balance of mh for the program's joint density; the model collapses to GF.regenerate for point masses (every program). Tie: one kernel step of mh / mala / hmc with scripted internal randomness "
              "(noise, momentum, accept uniform) on scalar, array-valued, Vmap-, Scan- and Cond-addressed targets incl. the mixture-indicator move: "
              "proposal, log acceptance ratio, accept decision, resulting trace, untouched unselected choices vs an independent JAX/scipy "
-             "implementation of the MH rule for the stated proposals AND vs the Lean model run by the driver on the same state/noise (targets expressed as exact quadratic forms), with accept/reject bracketing of the implementation's decision around the model's log alpha; mh's proposal = seeded regenerate under the same key.",
+             "implementation of the MH rule for the stated proposals AND vs the Lean model run by the driver on the same state/noise (targets expressed as exact quadratic forms), with accept/reject bracketing of the implementation's decision around the model's log alpha; mh's proposal = seeded regenerate under the same key. Also the proposal LAW of mh on every target: from two different current traces under one key the proposed values of the selected addresses coincide (all their parents are selected).",
         note=TB + "C09 (partial): leapfrog volume preservation and the Gaussian proposal density formula are cited mathematics; invariance of the posterior follows from detailed balance given C03/C04 weights; statistical invariance tests are not part of the quick tier.",
         technique="Lean 4 + Mathlib proof of the kernel cores + differential correspondence with scripted randomness",
         design="§3 C09"),
@@ -150,7 +150,7 @@ CHECKS = {
              "is the pulled-back target integral - with phi=1, E[exp(log_marginal_likelihood)] = evidence; init / extend AS smc.py COMPUTES THEM on generative-function programs (generate weight, custom proposal trace, merge order, weight + proposal score): properly weighted for the default proposal and for a custom proposal over ANY subset of the latents under domination, with the weight formula w = p(y) / (q(z) * prior mass of the sites generate fills), proved counterexamples (the regression formula p(y)/q(z); a proposal overlapping the observations; no domination), and the abstract unbiasedness theorem instantiated with these GFI steps (E[lml] = marginal likelihood of the whole observation sequence). Tie: init/extend/resample/rejuvenate "
              "pipelines and rejuvenation_smc on the real code: per-particle log weights vs scipy densities minus proposal densities, flat and "
              "nested address layouts, default and custom proposals, N in {1..8}; seeded mean of exp(lml) vs exact evidence; Lean exact run of a "
-             "tiny system.",
+             "tiny system. Also estimate with scalar, vector, matrix, rank-3, pytree, bool and int valued test functions vs the float64 weighted mean (a repaired defect: matrix-valued test functions).",
         note=TB + "C10: the theorem is for multinomial resampling and finite support; systematic resampling's unbiasedness is C12's count formula; rejuvenation kernels are assumed normalised (their invariance is C09).",
         technique="Lean 4 + Mathlib proof (finite-distribution monad, induction over pipelines) + differential correspondence",
         design="§3 C10"),
@@ -207,7 +207,7 @@ CHECKS = {
              "TFP parameter) is REGENERATED from the current source of distributions.py on every run and Lean re-checks it against the documented table (implTable_is_documented). Correspondence tie: the compiled model driver prints those terms, the "
              "harness evaluates them in float64 and compares with dist.logpdf on parameter x support grids for all 24 distributions; also vs scipy, numeric "
              "normalisation, seeded draws (scalar, sample_shape, vectorised) vs reference CDF/PMF (KS / chi-square, alpha=1e-6), shapes and dtypes, "
-             "extreme logit spreads, user-wrapped tfp_distribution / distribution.",
+             "extreme logit spreads, user-wrapped tfp_distribution / distribution. Also joint independence of the components when ONE parameter is batched (direct call and mapped by modular_vmap), all scalar-event families.",
         note=TB + "C13 (partial): that dist.logpdf equals the Lean spec term is established numerically on grids by the correspondence run (float64 evaluation of "
              "the printed term, Mathlib totalisations reproduced), and sampler<->density agreement is statistical evidence; TFP's log_prob and samplers are trusted.",
         technique="Lean 4 + Mathlib proof (normalisation of the spec densities, all 24) + differential/statistical correspondence for all 24 distributions",
